@@ -293,12 +293,24 @@ pub struct BytesCase {
 }
 
 fn bytes_strategy(_t: Tier) -> impl Strategy<Value = BytesCase> {
-    (
-        proptest::collection::vec(any::<u8>(), 0..40),
-        proptest::collection::vec(any::<u8>(), 1..97),
-        proptest::collection::vec(any::<u8>(), 0..40),
-    )
-        .prop_map(|(pre, data, post)| BytesCase { pre, data, post })
+    // lengths: short inputs, and inputs around and beyond the hash's block sizes (SHA3-256 absorbs
+    // 136-byte blocks; 64/72/104/144/168 are the other common rates) so that buffering code is crossed
+    let len = prop_oneof![
+        4 => 1usize..97,
+        3 => proptest::sample::select(vec![63usize, 64, 65, 71, 72, 73, 103, 104, 105, 127, 128, 129, 135, 136, 137, 143, 144, 145, 167, 168, 169, 271, 272, 273, 407, 408, 409, 544, 545]),
+        2 => 97usize..700,
+    ];
+    let pre = prop_oneof![3 => 0usize..40, 1 => proptest::sample::select(vec![0usize, 135, 136, 137, 200, 272])];
+    (pre, len, 0usize..40, any::<u64>())
+        .prop_map(|(pl, dl, ql, seed)| {
+            let mut g = rng(seed);
+            let mut mk = |n: usize| {
+                let mut v = vec![0u8; n];
+                rand_core::RngCore::fill_bytes(&mut g, &mut v);
+                v
+            };
+            BytesCase { pre: mk(pl), data: mk(dl), post: mk(ql) }
+        })
 }
 
 fn bytes_oracle(c: &BytesCase, rec: &Rec) -> R {
@@ -326,7 +338,7 @@ fn bytes_oracle(c: &BytesCase, rec: &Rec) -> R {
         ensure!(f(&longer) != c0, "C12/context-byte-not-bound", "appending a byte leaves the challenge unchanged");
     }
     rec.nontrivial((c.data.clone(), c.pre.len(), c.post.len()));
-    rec.class(&format!("len/{}", c.data.len() / 32 * 32));
+    rec.class(&format!("len/{}", if c.data.len() >= 136 { ">=136(block)".to_string() } else { (c.data.len() / 32 * 32).to_string() }));
     rec.sample("bytes", || json!({"pre_len": c.pre.len(), "data_len": c.data.len(), "post_len": c.post.len()}));
     Ok(())
 }
@@ -343,8 +355,8 @@ pub fn checks() -> Vec<CheckDef> {
         ),
         prop_check(
             "byte-inputs",
-            "generated byte strings (prefix, 1-96 byte input, suffix) fed with with_bytes; oracle: challenge == reduced SHA3-256 of the concatenation (reference), and flipping any byte (low and high bit) or appending a byte changes it; distinct by input",
-            &[],
+            "generated byte strings (prefix of 0-39 or 135-272 bytes, input of 1-700 bytes with lengths around every common hash block size, suffix) fed with with_bytes; oracle: challenge == reduced SHA3-256 of the concatenation (reference), and flipping any byte (low and high bit) or appending a byte changes it; distinct by input",
+            &["len/>=136(block)"],
             (300, 20_000),
             bytes_strategy,
             bytes_oracle,
